@@ -5,6 +5,11 @@ HERE = os.path.dirname(os.path.dirname(os.path.abspath(__file__)))
 
 # id -> (engine, category, technique, level text, level note, design ref)
 CHECKS = {
+ "C01": ("rpid", "exploration",
+   "proptest-constructed (origin, RP ID) pairs + complete sweep of all list rules against a reference predicate written from the statement (implication oracle), plus spy-instrumented end-to-end ceremonies",
+   "Every (origin, RP ID, configuration) pair is decided by the real RpIdVerifier and by a reference predicate (label-aligned suffix, https, registrable under the harness's own PSL implementation or the plugged provider, localhost exception); acceptance must imply the predicate and yield exactly the effective RP ID. All ~9.8k list rules are swept as RP IDs (A-label and Unicode/Android forms), every character cut of a set of hosts is enumerated, and generated pairs are also pushed through Client::register/authenticate with spy store and spy user validation (rejected => authenticator untouched, accepted => store and rpIdHash see the effective RP ID).",
+   "only 'accepted => conditions' is asserted (over-rejections are measured); trusts the url and idna crates for parsing/normalisation and the harness PSL reference (itself cross-checked by C10)",
+   "DESIGN.md §4 C01"),
  "C10": ("psl", "exploration",
    "complete rule sweep + proptest generated names against a reference PSL implementation (differential oracle)",
    "Every rule of the shipped .dat is swept (itself, extended by 1-3 labels, leading label removed/replaced) and hundreds of thousands of generated names are compared with an independent implementation of the publicsuffix.org algorithm that reads the .dat at run time; arbitrary strings get structural checks (label-aligned suffix, one more label, empty labels rejected, no panic). Exhaustive over rules, sampled over names: right level for a table-driven lookup whose failure modes are per-rule.",
